@@ -12,6 +12,7 @@ fn base_plan(first: Vec<Place>) -> Plan {
         first,
         late: 0,
         block_sends: vec![],
+        block_after_write: vec![],
         yield_between: true,
         hello_preloaded: true,
         extra: vec![],
@@ -150,6 +151,10 @@ fn gen_plan(r: &mut Prng, c18: bool) -> Plan {
     for a in 0..=total {
         if r.chance(1, 4) {
             plan.block_sends.push(a);
+            // written-then-suspended (the peer already has the bytes) or held back entirely
+            if r.chance(1, 2) {
+                plan.block_after_write.push(a);
+            }
         }
     }
     if c18 {
@@ -299,7 +304,11 @@ pub fn run(cfg: &Cfg, c18: bool) -> i32 {
                     // "reply read" and "reply parked" (rpc() holds the requests lock while sending)
                     let mut b = p.clone();
                     b.block_sends = vec![n + usize::from(c18)];
-                    plans.push((format!("n{n}-{place:?}-blocked-last-send"), b));
+                    plans.push((format!("n{n}-{place:?}-blocked-last-send"), b.clone()));
+                    // same, but the request is already on the wire while rpc() is still suspended
+                    // in send(): its reply can arrive before rpc() has returned
+                    b.block_after_write = b.block_sends.clone();
+                    plans.push((format!("n{n}-{place:?}-last-send-suspended-after-write"), b));
                 }
             }
         }
